@@ -19,6 +19,11 @@
 (*                       dependency failed (Fault events)                  *)
 (*  C03 DurableCovered   every export (also after kill + restart) covers   *)
 (*                       every duty for which a signature was produced     *)
+(*  C10 AboveFloor       nothing at or below a floor (prior history, imported *)
+(*                       file) is signed; DbPairsHold: an import never     *)
+(*                       lowers a record / a rejected import changes none  *)
+(*  C11 ExportFaithful   exported values = highest signed values;          *)
+(*      SamePairsHold    original and re-imported instance decide alike    *)
 (*  C09 AdvancingSigned  a well-formed, authorised duty above everything   *)
 (*                       signed before is signed (sequential, fault-free   *)
 (*                       runs only: the Invoke event says so)              *)
@@ -90,6 +95,8 @@ Release == /\ Is("Release")
               \/ /\ Ev.kind \notin {"att", "prop"}
                  /\ UNCHANGED <<relA, relP, hiS, hiT, hiP>>
            /\ bad' = bad \cup (IF RouteOK(Ev) THEN {} ELSE {<<"route", l>>})
+                         \cup (IF Ev.kind = "att" /\ (Ev.t <= Get(hiT, Ev.k) \/ Ev.s < Get(hiS, Ev.k)) THEN {<<"floor", l>>} ELSE {})
+                         \cup (IF Ev.kind = "prop" /\ Ev.slot <= Get(hiP, Ev.k) THEN {<<"floor", l>>} ELSE {})
                          \cup (IF <<Ev.r, 0>> \in fpos \/ <<Ev.r, Ev.i + 1>> \in fpos THEN {<<"failclosed", l>>} ELSE {})
            /\ UNCHANGED <<doneP, floor, snap, req, produced, fpos>>
 
@@ -112,7 +119,9 @@ Respond ==
                     THEN {<<"advancing", l, i>> : i \in {j \in 1 .. n : MustSign(q, q.ents[j], sn) /\ Ev.res[j] # "SUCCEEDED"}}
                     ELSE {}
            c06 == {<<"sigstate", l, i>> : i \in {j \in 1 .. n : (Ev.res[j] = "SUCCEEDED") # Ev.sig[j]}}
-       IN bad' = bad \cup c09 \cup c06
+           \* any signature bytes at all (verifying or not) in a faulted request / at a faulted position
+           c06f == {<<"failclosed", l, i>> : i \in {j \in 1 .. n : Ev.sig[j] /\ (<<Ev.r, 0>> \in fpos \/ <<Ev.r, j>> \in fpos)}}
+       IN bad' = bad \cup c09 \cup c06 \cup c06f
     /\ UNCHANGED <<relA, relP, floor, hiS, hiT, hiP, snap, req, produced, fpos>>
 
 \* C06: a dependency failed (or gave no definite answer) while request r / its entry i was processed
@@ -134,10 +143,28 @@ ExportEv == /\ Is("Export")
             /\ bad' = bad \cup {<<"durable", l, d.k>> : d \in {x \in produced : x.kind \in {"att", "prop"} /\ ~CoveredBy(Ev.db, x)}}
             /\ UNCHANGED <<relA, relP, doneP, floor, hiS, hiT, hiP, snap, req, produced, fpos>>
 
-Other == /\ l <= Len(Trace) /\ Ev.ev \notin {"Begin", "Floor", "Invoke", "Release", "Respond", "Fault", "Produce", "Export"}
+\* C10 / C11: two projections of the database (or two vectors of decisions) that must be related
+GeRec(a, b) == a.s >= b.s /\ a.t >= b.t /\ a.ps >= b.ps
+DbPair == /\ Is("DbPair")
+          /\ LET ks == (DOMAIN Ev.before) \cup (DOMAIN Ev.after)
+                 NoRec == [s |-> -1, t |-> -1, ps |-> -1]
+                 B(k) == IF k \in DOMAIN Ev.before THEN Ev.before[k] ELSE NoRec
+                 A(k) == IF k \in DOMAIN Ev.after THEN Ev.after[k] ELSE NoRec
+                 wrong == {k \in ks : IF Ev.must = "eq" THEN A(k) # B(k) ELSE ~GeRec(A(k), B(k))}
+             IN bad' = bad \cup {<<"dbpair", l, k>> : k \in wrong}
+          /\ UNCHANGED <<relA, relP, doneP, floor, hiS, hiT, hiP, snap, req, produced, fpos>>
+SamePair == /\ Is("SamePair")
+            /\ bad' = IF Ev.a = Ev.b THEN bad ELSE bad \cup {<<"samepair", l>>}
+            /\ UNCHANGED <<relA, relP, doneP, floor, hiS, hiT, hiP, snap, req, produced, fpos>>
+\* C11: an export states exactly the highest signed values of a key (histories of well-formed requests)
+Exported == /\ Is("Exported")
+            /\ bad' = IF Ev.s = Get(hiS, Ev.k) /\ Ev.t = Get(hiT, Ev.k) /\ Ev.slot = Get(hiP, Ev.k) THEN bad ELSE bad \cup {<<"exported", l>>}
+            /\ UNCHANGED <<relA, relP, doneP, floor, hiS, hiT, hiP, snap, req, produced, fpos>>
+
+Other == /\ l <= Len(Trace) /\ Ev.ev \notin {"Begin", "Floor", "Invoke", "Release", "Respond", "Fault", "Produce", "Export", "DbPair", "SamePair", "Exported"}
          /\ l' = l + 1 /\ UNCHANGED <<relA, relP, doneP, floor, hiS, hiT, hiP, snap, req, produced, fpos, bad>>
 
-Next == Begin \/ FloorEv \/ Invoke \/ Release \/ Respond \/ FaultEv \/ Produce \/ ExportEv \/ Other
+Next == Begin \/ FloorEv \/ Invoke \/ Release \/ Respond \/ FaultEv \/ Produce \/ ExportEv \/ DbPair \/ SamePair \/ Exported \/ Other
 Spec == Init /\ [][Next]_vars
 
 HighWater == TLCSet(1, IF l > TLCGet(1) THEN l ELSE TLCGet(1))
@@ -151,5 +178,9 @@ Routed == \A b \in bad : b[1] # "route"
 SigIffSucceeded == \A b \in bad : b[1] # "sigstate"
 FailClosed == \A b \in bad : b[1] # "failclosed"
 DurableCovered == \A b \in bad : b[1] # "durable"
+AboveFloor == \A b \in bad : b[1] # "floor"
+DbPairsHold == \A b \in bad : b[1] # "dbpair"
+SamePairsHold == \A b \in bad : b[1] # "samepair"
+ExportFaithful == \A b \in bad : b[1] # "exported"
 AdvancingSigned == \A b \in bad : b[1] # "advancing"
 =============================================================================
